@@ -32,6 +32,8 @@ structure DState where
   /-- cache keys whose lifetime ran out during a `st.sleep` INSIDE a transaction: cleaning is disabled then, so
   the entries are still served; they are dropped as soon as cleaning is enabled again (commit / rollback) -/
   stExpired : List Store.Key := []
+  /-- the directory as it was after each successful publish (epoch, state): material of other epochs' trees -/
+  snaps : List (Nat × Dir) := []
   /-- lagging reader instances: the epoch record each one has pinned in its cache -/
   readers : List (Nat × Azks) := []
 
@@ -274,7 +276,8 @@ def stepL1 (st : DState) (toks : List String) : Option (DState × String) :=
     match st.dir.publish c ps with
     | .ok (d, ep, h) =>
       let roots := if st.roots.any (fun r => r.1 = ep) then st.roots else st.roots ++ [(ep, h)]
-      some ({ st with dir := d, roots := roots }, s!"ok {ep} {Show.dig h}")
+      let snaps := if st.snaps.any (fun r => r.1 = ep) then st.snaps else (ep, d) :: st.snaps
+      some ({ st with dir := d, roots := roots, snaps := snaps }, s!"ok {ep} {Show.dig h}")
     | .error .vrfMissing => some (st, "vrf-missing")
     | .error _ => some (st, "err")
   | ["dir.epochhash"] =>
@@ -456,7 +459,7 @@ def stepL1 (st : DState) (toks : List String) : Option (DState × String) :=
     | .ok (p0, ep, h) =>
       let p := es.foldl (fun (acc : Except DErr LookupProof) e =>
         match acc with
-        | .ok p => AdvDir.applyLookup c st.dir u p e
+        | .ok p => AdvDir.applyLookup c st.dir u p st.snaps e
         | .error x => .error x) (.ok p0)
       match p with
       | .ok p => some (st, showV Show.verifyResult (Verify.lookup c st.dir.vrf h ep u p))
